@@ -11,11 +11,17 @@
 //   new thread <limit> | new process <limit> <segment bytes = argv[1]>
 //   store <now> <key> <val> <trig,trig,..|-> <deadline> <gen|-> [annotations ignored here]
 //   fetch <now> <key> | rise <trig> | remove <key> | clear | stats | avail
-// answer: <result> | <keys> <triggers> [lowmem]      (stats after the operation)
+// answer: <result> [copyfail] [nem=<0/1 per evaluation of check_limits' guard>] | <keys> <triggers> [lowmem] [maxavail-mismatch]
 #include "common.h"
 #include "base_cache.h"
 #include "cache_storage.h"
+#include "buddy_allocator.h"
+// shmem_control's private members (memory_ = the buddy allocator of the segment) are read, never written:
+// the reference answers of not_enough_memory() are computed from the allocator itself, not through
+// shmem_control::max_available()
+#define private public
 #include "shmem_allocator.h"
+#undef private
 #include <booster/intrusive_ptr.h>
 #include <set>
 #include <time.h>
@@ -27,6 +33,19 @@ extern "C" time_t time(time_t *t) { if(t) *t=virtual_now; return virtual_now; }
 // cache_storage.cpp; re-declaring the struct's relevant part gives access to the segment
 // (max_available(), trial allocations) without touching the source.
 namespace cppcms { namespace impl { struct process_settings { static shmem_control *process_memory; }; } }
+
+// check_limits hook (/repo `hook:` commit, CPPCMS_VERIF_HOOKS): at every evaluation point of the loop guard record
+// what not_enough_memory() *should* answer: largest free chunk of the buddy allocator < 10% of the segment
+// (process_settings::not_enough_memory, fraction checked by the translator)
+extern "C" { extern void (*cppcms_verif_limits_hook)(int in_loop); }
+static std::string nem_trace;
+static bool is_process_now=false;
+static void limits_hook(int)
+{
+	if(!is_process_now) return;
+	cppcms::impl::shmem_control *m=cppcms::impl::process_settings::process_memory;
+	nem_trace.push_back(m->memory_->max_free_chunk() < m->size_/10 ? '1' : '0');
+}
 
 using cppcms::impl::base_cache;
 static booster::intrusive_ptr<base_cache> cache;
@@ -81,6 +100,9 @@ static std::string tail()
 	if(is_process) {
 		cppcms::impl::shmem_control *m=cppcms::impl::process_settings::process_memory;
 		if(m->max_available() < m->size()/10) ss<<" lowmem";
+		// what shmem_control reports must be what the allocator of the segment says
+		if(m->max_available()!=m->memory_->max_free_chunk() || m->available()!=m->memory_->total_free_memory())
+			ss<<" maxavail-mismatch";
 	}
 	return ss.str();
 }
@@ -113,9 +135,13 @@ static std::string run(std::vector<std::string> const &w)
 			void *p=m->malloc(v.size()+1);
 			if(p) m->free(p); else copyfail=true;
 		}
+		nem_trace.clear(); is_process_now=is_process;
 		if(w[6]=="-") cache->store(k,v,tr,deadline);
 		else { uint64_t g=strtoull(w[6].c_str(),0,10); cache->store(k,v,tr,deadline,&g); }
-		return std::string(copyfail?"ok copyfail":"ok")+tail();
+		is_process_now=false;
+		std::string r=copyfail?"ok copyfail":"ok";
+		if(is_process && !nem_trace.empty()) r+=" nem="+nem_trace;	// oracle for the model's StoreEnv.lowMem
+		return r+tail();
 	}
 	if(w[0]=="fetch" && w.size()==3) {
 		std::string k,v; std::set<std::string> tr; time_t d=0; uint64_t g=0;
@@ -148,6 +174,7 @@ static std::string run(std::vector<std::string> const &w)
 
 int main(int argc,char **argv)
 {
+	cppcms_verif_limits_hook=limits_hook;
 	if(argc>1) shm_size=strtoull(argv[1],0,10);
 	int r=vh::drive(run);
 	drop_cache();
